@@ -1,0 +1,147 @@
+// Copyright 2026 Anapaya Systems
+//
+// Licensed under the Apache License, Version 2.0 (the "License");
+// you may not use this file except in compliance with the License.
+// You may obtain a copy of the License at
+//
+//   http://www.apache.org/licenses/LICENSE-2.0
+//
+// Unless required by applicable law or agreed to in writing, software
+// distributed under the License is distributed on an "AS IS" BASIS,
+// WITHOUT WARRANTIES OR CONDITIONS OF ANY KIND, either express or implied.
+// See the License for the specific language governing permissions and
+// limitations under the License.
+//! Verification hooks (cargo feature `verif-hooks`, default off, add-only): a path-aware
+//! [`UdpScionSocket`] wired to a [`MultiPathManager`] exactly like `ScionStack::bind_with_config`
+//! does, over an in-memory underlay whose first-hop interfaces can be switched off. Lets the /verif
+//! harness observe whether a local first-hop send failure on a manager-chosen path reaches the
+//! path manager.
+
+use std::{
+    collections::HashSet,
+    io,
+    sync::{Arc, Mutex},
+    time::Duration,
+};
+
+use async_trait::async_trait;
+use sciparse::{
+    address::ip_socket_addr::ScionSocketIpAddr, dataplane_path::view::ScionDpPathViewExt as _,
+    packet::view::ScionRawPacketView,
+};
+
+use crate::{
+    internal::Subscribers,
+    path::{
+        PathStrategy,
+        fetcher::traits::PathFetcher,
+        manager::{MultiPathManager, MultiPathManagerConfig},
+        policy::PathPolicy,
+    },
+    stack::{
+        BoundUnderlaySocket, ScionSocketReceiveError, ScionSocketSendError, UnderlaySocket,
+        scmp_handler::{ScmpErrorHandler, ScmpErrorReceiver},
+        socket::{PathUnawareUdpScionSocket, SendErrorReceiver, UdpScionSocket},
+    },
+};
+
+/// State of the in-memory underlay.
+#[derive(Default)]
+pub struct SendUnderlayState {
+    /// Egress interfaces of the local AS whose next hop is unreachable.
+    pub down: Mutex<HashSet<u16>>,
+    /// (first egress interface, sent successfully) of every send attempt, in order.
+    pub attempts: Mutex<Vec<(u16, bool)>>,
+}
+
+struct SwitchableUnderlay(Arc<SendUnderlayState>);
+
+#[async_trait]
+impl UnderlaySocket for SwitchableUnderlay {
+    // Same classification as `UdpUnderlaySocket::try_send` for an egress interface without a
+    // reachable next hop.
+    fn try_send(&self, packet: &ScionRawPacketView) -> Result<(), ScionSocketSendError> {
+        let source_ia = packet.header().src_ia();
+        let Some(egress_if) = packet.header().path().first_egress_interface() else {
+            return Err(ScionSocketSendError::InvalidPacket(
+                "Can't determine egress interface for packet.".into(),
+            ));
+        };
+        let down = self.0.down.lock().unwrap().contains(&egress_if);
+        self.0.attempts.lock().unwrap().push((egress_if, !down));
+        if down {
+            return Err(ScionSocketSendError::UnderlayNextHopUnreachable {
+                isd_as: source_ia,
+                interface_id: egress_if,
+                address: None,
+                msg: "next hop not found".to_string(),
+            });
+        }
+        Ok(())
+    }
+
+    async fn writeable(&self) {}
+
+    fn try_recv(&self, _buf: &mut [u8]) -> Result<usize, ScionSocketReceiveError> {
+        Err(ScionSocketReceiveError::IoError(io::Error::new(
+            io::ErrorKind::ConnectionReset,
+            "send-only underlay",
+        )))
+    }
+
+    async fn readable(&self) {}
+}
+
+/// What `ScionStack::bind_with_config` builds, over the in-memory underlay: a path manager with
+/// the default scorers, registered as SCMP error receiver and send error receiver, and the
+/// path-aware UDP socket using it.
+#[allow(clippy::type_complexity)]
+pub fn managed_udp_socket<F: PathFetcher>(
+    local_addr: ScionSocketIpAddr,
+    config: MultiPathManagerConfig,
+    fetcher: F,
+    policies: Vec<Arc<dyn PathPolicy>>,
+) -> Result<
+    (
+        UdpScionSocket<MultiPathManager<F>>,
+        Arc<MultiPathManager<F>>,
+        Arc<SendUnderlayState>,
+    ),
+    String,
+> {
+    let state = Arc::new(SendUnderlayState::default());
+    let scmp_error_receivers: Subscribers<dyn ScmpErrorReceiver> = Subscribers::new();
+    let send_error_receivers: Subscribers<dyn SendErrorReceiver> = Subscribers::new();
+
+    let socket = PathUnawareUdpScionSocket::new(
+        BoundUnderlaySocket {
+            socket: Box::new(SwitchableUnderlay(state.clone())),
+            local_addr,
+            snap_data_plane: None,
+        },
+        vec![Box::new(ScmpErrorHandler::new(
+            scmp_error_receivers.clone(),
+        ))],
+    );
+
+    let mut path_strategy = PathStrategy::default();
+    path_strategy.scoring.use_default_scorers();
+    path_strategy.policies = policies;
+
+    let pather = Arc::new(
+        MultiPathManager::new(config, fetcher, path_strategy).map_err(|e| e.to_string())?,
+    );
+    scmp_error_receivers.register(pather.clone());
+    send_error_receivers.register(pather.clone());
+
+    Ok((
+        UdpScionSocket::new(
+            socket,
+            pather.clone(),
+            Duration::from_secs(1),
+            send_error_receivers,
+        ),
+        pather,
+        state,
+    ))
+}
